@@ -59,6 +59,11 @@ CAPSETS = {
     # the server's final DIGEST-MD5 data does not verify: it is the client that ends the login (no NO from the server)
     "digest-bad-rspauth": dict(starttls=False, pre=b"DIGEST-MD5", post=b"DIGEST-MD5", bad_rspauth=True),
     "tls-digest-after": dict(starttls=True, pre=b"PLAIN", post=b"DIGEST-MD5 PLAIN"),
+    # OAUTHBEARER alone; and a server that answers a refused token with an error challenge and waits for the client's dummy response
+    # before it fails the exchange (RFC 7628 3.2.3) - whatever arrives then, only OK authenticates
+    "oauth": dict(starttls=False, pre=b"OAUTHBEARER", post=b"OAUTHBEARER"),
+    "oauth-challenge": dict(starttls=False, pre=b"OAUTHBEARER", post=b"OAUTHBEARER", oauth_challenge=True),
+    "tls-oauth-challenge": dict(starttls=True, pre=b"PLAIN", post=b"OAUTHBEARER", oauth_challenge=True),
 }
 
 
@@ -72,6 +77,7 @@ def make_server(capset, faults, auth_ok=True):
     srv.auth_final_sasl = FINAL_SASL[0]
     srv.digest_users = {"user": "pass"}
     srv.digest_bad_rspauth = bool(CAPSETS[capset].get("bad_rspauth"))
+    srv.oauth_error_challenge = bool(CAPSETS[capset].get("oauth_challenge"))
     return srv
 
 
